@@ -82,6 +82,9 @@ def run(tier):
     import props.c01trace as c01trace
     tr = c01trace.run_traces(tier)
     viols += tr['violations']
+    import props.c02blocks as c02blocks
+    bl = c02blocks.run_blocks(tier)
+    viols += bl['violations']
     mine = [v for v in viols if v['property'] == 'C01' or v['kind'] == 'conformance']
     cov = {
         'states': mc['states'], 'transitions': mc['transitions'],
@@ -92,6 +95,7 @@ def run(tier):
         'replay': {'behaviours': out['behaviours'], 'steps': out['steps'], 'actions': out['actions'],
                    'insert_blocks_decoded': out['blocks'], 'conn_fails_injected': out['conn_fails_injected']},
         'trace_validation': tr['stats'],
+        'all_endpoints_ack_check': bl['stats'],
         'checker_cmd': 'tlc MC_Batcher.tla (%s, MC_Batcher_live.cfg); tlc -simulate MC_BatcherReplay.tla -> cmd/c01replay; cmd/c01trace -> tlc Trace_Batcher.tla' % mc['cfg'],
     }
     return {'level': 'model_checking', 'coverage': cov, 'violations': mine,
